@@ -141,6 +141,8 @@ var oddTrees = []map[string]string{
 	{"page.tw": `@dump(a)@dump()@dump(a, items, nope)`},
 	{"page.tw": `@component("~x", {loop: 1})`, "components/x.tw": `{{ loop }}`},
 	{"page.tw": `@component("~x", {a: b})`, "components/x.tw": `{{ a }}`},
+	// files that are a byte order mark, a part of one, or begin with one
+	{"page.tw": "\xef\xbb", "a.tw": "\xef", "b.tw": "\xef\xbb\xbf", "c.tw": "\xef\xbb\xbf{{ a }}", "d.tw": "\xfe\xff", "e.tw": "\xff\xfe{{ a }}", "f.tw": "\xef\xbb{{ a }}", "components/x.tw": "\xef\xbb", "g.tw": "@component(\"~x\")"},
 	// the use statement inside the blocks its own layout renders
 	{"page.tw": `@insert("r")x@use("~l")y@end`, "layouts/l.tw": `<@reserve("r")>`},
 	{"page.tw": `@use("~l")@insert("r")@if(true)@use("~l")@end@end`, "layouts/l.tw": `<@reserve("r")>`},
